@@ -153,7 +153,7 @@ package gonum
 
 // ---- Level 3 ------------------------------------------------------------------
 
-//@ func Implementation.Dgemm Implementation.Sgemm props: C01(frame) C07(safety)
+//@ func Implementation.Dgemm Implementation.Sgemm props: C01(frame) C07(safety) C09(go)
 //@ let aT = tA != blas.NoTrans
 //@ let bT = tB != blas.NoTrans
 //@ let rowA = ite(aT, k, m)
